@@ -387,8 +387,35 @@ def pipelined_family(ctx):
     return res
 
 
+def limits_family(ctx):
+    """a session that logs in again as the user it already is, when that user's connection limit is reached - by this
+    very session: the re-login is answered like the first login (the slot it holds is its own)"""
+    import world as W
+
+    users = [W.UserSpec("alice", "secret", home="/", max_conn=1), W.UserSpec("bob", None, home="/", max_conn=1), W.UserSpec("carol", "pw", home="/", max_conn=2)]
+    cases = [
+        (["USER bob", "USER bob", "PWD"], [[230], [230], [257]]),
+        (["USER alice", "PASS secret", "USER alice", "PASS secret", "PWD"], [[331], [230], [331], [230], [257]]),
+        (["USER alice", "USER alice", "PASS secret", "PWD"], [[331], [331], [230], [257]]),
+        (["USER bob", "USER alice", "PASS secret", "USER bob", "PWD"], [[230], [331], [230], [230], [257]]),
+        (["USER carol", "PASS pw", "USER carol", "PASS wrong", "USER carol", "PASS pw", "PWD"], [[331], [230], [331], [530], [331], [230], [257]]),
+    ]
+    res = Result()
+    for cmds, want in cases:
+        res.cases += 1
+        res.count("relogin_under_user_limit")
+        res.distinct.add(("limits", tuple(cmds)))
+        snaps = S.run_history(users, S.TREE, to_events(cmds))
+        got = [[int(x) for x in sn["replies"].split(",")] if sn and sn["replies"] != "~" else [] for sn in snaps[1:]]
+        if got != want:
+            k = next((i for i, (a_, b_) in enumerate(zip(got, want)) if a_ != b_), len(want))
+            res.oracle_failures.append({"input": {"kind": "user-limit", "commands": cmds}, "what": "with a per-user connection limit that only this session fills, %r answered %r (replies so far %r), the same sequence without a limit gives %r" % (cmds[k] if k < len(cmds) else "?", got[k] if k < len(got) else None, got, want), "signature": "C05:relogin-refused-by-own-slot"})
+    return res
+
+
 def correspondence(ctx):
     r = _run(ctx, gen_histories(ctx))
+    r.merge(limits_family(ctx))
     r.merge(pipelined_family(ctx))
     r.merge(fault_family(ctx))
     return r
@@ -402,10 +429,17 @@ def search(ctx, prior):
     r = _run(ctx, hist, compare=False)
     r.merge(fault_family(ctx))
     r.merge(pipelined_family(ctx))
+    r.merge(limits_family(ctx))
     return r
 
 
 def replay(ctx, doc):
+    if doc["failure"]["input"].get("kind") == "user-limit":
+        r = limits_family(ctx)
+        hit = [f for f in r.oracle_failures if f["input"]["commands"] == doc["failure"]["input"]["commands"]]
+        for f in hit:
+            print("implementation:", f["what"])
+        return bool(hit)
     if doc["failure"]["input"].get("kind") == "pipelined-segment":
         import latewire as LW
 
